@@ -21,7 +21,16 @@ def observe_path(frame, use_kaitai, scribble=False):
     try:
         with warnings.catch_warnings():
             warnings.simplefilter("ignore")
-            b = Burst.from_hytera_ipsc(IpSiteConnectProtocol.from_bytes(frame) if use_kaitai else gen.as_caller_buffer(frame, frame[4] + frame[40]))
+            k = frame[4] + frame[40]
+            if not use_kaitai and k % 7 == 5:
+                # a receive buffer that is used again: the datagram is decoded from a memoryview of the buffer, then the next datagram
+                # arrives in the same buffer - everything read from the burst afterwards (ids, octets, the re-serialised frame)
+                # is about the frame that was decoded, not about what the buffer holds now
+                rx = bytearray(b"\x00" + bytes(frame) + b"\x00")
+                b = Burst.from_hytera_ipsc(memoryview(rx)[1:-1])
+                rx[:] = bytes(x ^ 0xFF for x in rx)
+            else:
+                b = Burst.from_hytera_ipsc(IpSiteConnectProtocol.from_bytes(frame) if use_kaitai else gen.as_caller_buffer(frame, k))
         o["cls"] = type(b).__name__
         o["octets"] = list(b.full_bits.tobytes())
         o["bits"] = core.digest(o["octets"])
